@@ -45,6 +45,7 @@ type Line struct {
 	R    map[string]any `json:"r"`  // tagged result
 	W    []any          `json:"w"`  // projected world after the call
 	Why  string         `json:"why,omitempty"`
+	TV   string         `json:"tv,omitempty"` // String() views that disagree with AsArray() (judged by C10 only)
 }
 
 type obj struct {
@@ -63,6 +64,7 @@ type Interp[K comparable, V any] struct {
 	closed   map[*obj]bool // queues the script has closed
 	probe    int           // keys 0..probe are probed for absence in maps
 	NoSort   bool          // codec order is not strict: do not sort
+	textBad  []string      // String() views that disagree with AsArray() in the last projection
 }
 
 func NewInterp[K comparable, V any](kc Codec[K], vc Codec[V]) *Interp[K, V] {
@@ -298,6 +300,9 @@ func (in *Interp[K, V]) guarded(sid int, st Step, watchdog time.Duration, noView
 			line.W = []any{}
 		} else {
 			line.W = in.Project()
+			if len(in.textBad) > 0 {
+				line.TV = strings.Join(in.textBad, " | ")
+			}
 		}
 		done <- line
 	}()
